@@ -29,7 +29,7 @@ func keyPath(store string, key []byte) string {
 	return kp.String()
 }
 
-type c14stats struct{ queries, proofs, histories int64 }
+type c14stats struct{ queries, proofs, histories, phases, commits int64 }
 
 func runC14(h rmHist, st *c14stats) (out []*c12result) {
 	defer func() {
@@ -63,6 +63,7 @@ func runC14(h rmHist, st *c14stats) (out []*c12result) {
 	hashes := map[int64][]byte{}
 	V := int64(len(h.Choice))
 	check := func(latest int64, phase string) {
+		atomic.AddInt64(&st.phases, 1)
 		for i := 0; i < h.N; i++ {
 			for _, key := range c14keys {
 				for height := int64(0); height <= latest+1; height++ {
@@ -163,6 +164,7 @@ func runC14(h rmHist, st *c14stats) (out []*c12result) {
 			check(v-1, "mid-block")
 		}
 		cid := s.rs.Commit()
+		atomic.AddInt64(&st.commits, 1)
 		snap := make([]kvMap, h.N)
 		for i := range models {
 			snap[i] = models[i].clone()
@@ -379,15 +381,15 @@ func C14(tier string) int {
 		run.Report(r.sig, r.what, nil)
 	}
 	run.Set("evaluations", st.queries)
-	run.Set("states", total)
-	run.Set("transitions", st.queries)
+	run.Set("states", st.phases)
+	run.Set("transitions", st.queries+st.commits)
 	run.Set("traces_validated_against_impl", total)
 	run.Set("distinct_nontrivial", st.proofs)
 	run.Set("queries", st.queries)
 	run.Set("proofs_verified", st.proofs)
 	run.Set("histories", total)
 	run.Set("jobs", desc)
-	run.Set("rule", "for every write history: after the last commit and in the middle of the last block (uncommitted writes applied), every store x every key of {k1,k2,k,k1\\x00,k3,k0,zz} x every height 0..latest+1 x prove in {false,true} through rootmulti.Query('/<store>/key'); value compared with the model snapshot of the height, proof verified with DefaultProofRuntime against the app hash of that height and required to fail against every other height's different hash, for a different value and for the opposite presence; distinct_nontrivial = proofs verified")
+	run.Set("rule", "for every write history: after the last commit and in the middle of the last block (uncommitted writes applied), every store x every key of {k1,k2,k,k1\\x00,k3,k0,zz} x every height 0..latest+1 x prove in {false,true} through rootmulti.Query('/<store>/key'); value compared with the model snapshot of the height, proof verified with DefaultProofRuntime against the app hash of that height and required to fail against every other height's different hash, for a different value and for the opposite presence; evaluations = queries issued; states = (history, phase) store states that were queried exhaustively (between blocks, mid-block, after reopening); transitions = queries + commits executed; distinct_nontrivial = proofs verified (each for a distinct history, phase, store, key, height)")
 	run.Sample("N=2 pruning=(0,2) v1[k1=a | k2=a] v2[del k1 | -] v3[k1=b | k1=a;del k2]: store s1 key \"k1\" height 2 prove=true -> absence proof against app hash of height 2")
 	run.Assume("application level: a 5-block chain history under 3 pruning options, every account/validator key ever stored (+ never-written ones) x heights 0..latest+1 x prove through BaseApp.Query(/store/<name>/key): height 0 = latest, proof refused at height <= 1, values against the raw dump recorded at that height, proofs against the app hash returned by that Commit; all of it repeated on a node re-created over the same database before it commits again",
 		"only /key queries are judged (/subspace reads the working tree by construction)", "for height 0 the documented default applies and the response is judged against the height it reports", "retention rule as in C12")
